@@ -843,6 +843,9 @@ func (ex *Exec) contractCall(key string, spec *FuncSpec, callee *ssa.Function, t
 		vt := pev.resolveType(g.Type)
 		n := ex.vc.fresh(ex.pfx+"g_"+sanitize(callee.Name())+"_"+g.Name, ex.vc.vtSort(vt))
 		pev.vars[g.Name] = TV{T: n, Ty: vt}
+		if outs := spec.Opts["ghost-out"]; outs != "" && !strings.Contains(" "+strings.ReplaceAll(outs, ",", " ")+" ", " "+g.Name+" ") {
+			continue // the callee names its ghost results explicitly: its other ghost variables are internal
+		}
 		if cg, ok := ex.vc.ghostSort[g.Name]; ok && ex.vc.vtSort(cg) == ex.vc.vtSort(vt) {
 			ex.set(post, "G:"+g.Name, ex.vc.vtSort(cg), n)
 		}
